@@ -302,7 +302,8 @@ func C17(r *h.Run) {
 		genGo = ""
 	}
 
-	keywordish := []string{"Import", "Type", "Go", "Func", "Map", "Range", "Select", "Default", "Var", "Return", "import", "type", "go_to", "Package", "Switch", "Interface", "For", "If", "Else", "Chan", "Const", "Defer", "Break", "Case", "Continue", "Fallthrough", "Goto", "Struct"}
+	keywordish := []string{"Import", "Type", "Go", "Func", "Map", "Range", "Select", "Default", "Var", "Return", "import", "type", "go_to", "Package", "Switch", "Interface", "For", "If", "Else", "Chan", "Const", "Defer", "Break", "Case", "Continue", "Fallthrough", "Goto", "Struct",
+		"IF", "GO", "FOR", "MAP", "TYPE", "RANGE", "CHAN", "VAR", "FUNC"}
 	plain := []string{"Do", "Ping", "GetThing", "get_thing", "List2", "sum", "CumSum", "X", "a_b_c", "Do_It", "HTTPCall"}
 	pkgs := []string{"", "", "acme", "acme.foo.v1", "a.b", "connect.ping.v1"}
 	var files []gFile
@@ -343,7 +344,18 @@ func C17(r *h.Run) {
 		files = append(files, gFile{Package: "acme.v1", GoPackage: gp, Services: []gService{{Name: "Gateway", Methods: []gMethod{
 			{Name: "Do"}, {Name: "Up", CS: true}, {Name: "Down", SS: true}, {Name: "Both", CS: true, SS: true}}}}})
 	}
+	// method names of one service that differ only in the letter case of their leading capitals
+	for i, pair := range [][]string{{"GETUser", "GetUser"}, {"AB", "Ab"}, {"HTTPCall", "HttpCall", "Httpcall"}, {"ID", "Id", "IDs"}} {
+		var ms []gMethod
+		for j, n := range pair {
+			ms = append(ms, gMethod{Name: n, CS: j%2 == 1, SS: (i+j)%3 == 0})
+		}
+		files = append(files, gFile{Package: "acme.v1", GoPackage: "example.com/gen/casepairs;casepairs", Services: []gService{{Name: "Users", Methods: ms}}})
+	}
 	collides := func(gp string) bool {
+		if strings.HasSuffix(gp, ";casepairs") {
+			return true // (always compiled)
+		}
 		for _, suf := range []string{"/http", "/context", "/errors", "/strings", ";connect_go", ";http"} {
 			if strings.HasSuffix(gp, suf) {
 				return true
@@ -365,6 +377,11 @@ func C17(r *h.Run) {
 			r.Fail(h.Failure{Key: "codegen/generator-fails", Family: "generate", What: "the generator failed on a valid file", Input: in, Actual: fmt.Sprint(err, " ", res.GetError())})
 			continue
 		}
+		if res.GetSupportedFeatures()&uint64(pluginpb.CodeGeneratorResponse_FEATURE_PROTO3_OPTIONAL) == 0 {
+			// protoc and buf refuse the plugin's answer for a proto3 file with optional fields
+			// unless the response declares this feature, whether or not anything was generated
+			r.Fail(h.Failure{Key: "codegen/proto3-optional-not-declared", Family: "generate", What: "the response does not declare FEATURE_PROTO3_OPTIONAL: protoc fails the run for every proto3 file with an optional field", Input: in, Actual: res.GetSupportedFeatures()})
+		}
 		res2, _ := runPlugin(plugin, req)
 		if res2 == nil || !proto.Equal(res, res2) {
 			r.Fail(h.Failure{Key: "codegen/nondeterministic", Family: "generate", What: "two runs on the same request differ", Input: in})
@@ -381,6 +398,9 @@ func C17(r *h.Run) {
 		}
 		src := res.File[0].GetContent()
 		single[fi] = src
+		if dup := duplicateFields(src); dup != "" {
+			r.Fail(h.Failure{Key: "codegen/does-not-compile", Family: "generate", What: "generated code declares a struct field twice: " + dup, Input: in})
+		}
 		for _, s := range f.Services {
 			goName := goCamel(s.Name)
 			rows, mount, perr := extractSkeleton(src, goName)
@@ -528,4 +548,30 @@ func C17(r *h.Run) {
 	if genGo != "" {
 		_ = os.Remove(genGo)
 	}
+}
+
+// duplicateFields reports a struct field name declared twice in one struct type of src.
+func duplicateFields(src string) string {
+	f, err := parser.ParseFile(token.NewFileSet(), "gen.go", src, 0)
+	if err != nil {
+		return ""
+	}
+	dup := ""
+	ast.Inspect(f, func(n ast.Node) bool {
+		st, ok := n.(*ast.StructType)
+		if !ok || dup != "" {
+			return dup == ""
+		}
+		seen := map[string]bool{}
+		for _, fl := range st.Fields.List {
+			for _, nm := range fl.Names {
+				if seen[nm.Name] {
+					dup = nm.Name
+				}
+				seen[nm.Name] = true
+			}
+		}
+		return true
+	})
+	return dup
 }
